@@ -1,3 +1,4 @@
+import QR.Proofs.SourceTieD2b
 import QR.Model.QRObject
 import QR.Proofs.Except
 import QR.Proofs.History
@@ -135,6 +136,191 @@ theorem C18_source_validators (x : Int) :
     (checkBorder x = if Gen.Code.check_border_bad x then .error .valueError else .ok ()) ∧
     (checkMaskPattern (some x) = if Gen.Code.check_mask_pattern_bad x then .error .valueError else .ok ()) :=
   ⟨QR.SourceTie.checkVersion_eq x, QR.SourceTie.checkBoxSize_eq x, QR.SourceTie.checkBorder_eq x, QR.SourceTie.checkMask_eq x⟩
+
+/-! ### Source tie, part 4 (T2 plugin `tools/t2_fragments/frag_d2.py`): the QRCode object's own methods, translated statement by
+    statement from /repo's current Python AST (`QR.Gen.Code.ob_*`), against the Model. Restated verbatim from
+    `QR/Proofs/SourceTieD2*.lean`. -/
+section SourceTieD2
+open QR.Model QR.Gen.Code QR.SourceTieD2
+
+/-- `_check_box_size(size)` on an integer -/
+theorem C18_source_checkBoxSize_src (x : Int) : ob_check_box_size (.int x) = liftR (checkBoxSize x) := by
+  first | exact QR.SourceTieD2.checkBoxSize_src | (apply QR.SourceTieD2.checkBoxSize_src <;> assumption)
+
+/-- `_check_box_size(size)` on the other types: `int(None)` / `int(other)` raise TypeError; `True` is 1, `False` is 0; a
+    float is truncated first (so `box_size=0.5` is rejected, `box_size=1.5` accepted) -/
+theorem C18_source_checkBoxSize_nonint_src :
+    ob_check_box_size .none = .error "TypeError" ∧ ob_check_box_size .other = .error "TypeError" ∧
+    ob_check_box_size (.bool true) = .ok () ∧ ob_check_box_size (.bool false) = .error "ValueError" ∧
+    (∀ t, ob_check_box_size (.float t) = ob_check_box_size (.int t)) := by
+  first | exact QR.SourceTieD2.checkBoxSize_nonint_src | (apply QR.SourceTieD2.checkBoxSize_nonint_src <;> assumption)
+
+/-- `_check_border(size)` on an integer -/
+theorem C18_source_checkBorder_src (x : Int) : ob_check_border (.int x) = liftR (checkBorder x) := by
+  first | exact QR.SourceTieD2.checkBorder_src | (apply QR.SourceTieD2.checkBorder_src <;> assumption)
+
+/-- `_check_border(size)` on the other types (`border=-0.5` is accepted: `int(-0.5) == 0`) -/
+theorem C18_source_checkBorder_nonint_src :
+    ob_check_border .none = .error "TypeError" ∧ ob_check_border .other = .error "TypeError" ∧
+    (∀ b, ob_check_border (.bool b) = .ok ()) ∧ (∀ t, ob_check_border (.float t) = ob_check_border (.int t)) := by
+  first | exact QR.SourceTieD2.checkBorder_nonint_src | (apply QR.SourceTieD2.checkBorder_nonint_src <;> assumption)
+
+/-- `_check_mask_pattern(mask_pattern)` on `None` or an integer: the complete body (early return, isinstance test, range) -/
+theorem C18_source_checkMaskPattern_src (x : Option Int) : ob_check_mask_pattern (optVal x) = liftR (checkMaskPattern x) := by
+  first | exact QR.SourceTieD2.checkMaskPattern_src | (apply QR.SourceTieD2.checkMaskPattern_src <;> assumption)
+
+/-- `_check_mask_pattern` on the other types: a float or another object is a TypeError; a `bool` IS an `int` instance and
+    `True` / `False` are in range, so both are accepted -/
+theorem C18_source_checkMaskPattern_nonint_src :
+    (∀ t, ob_check_mask_pattern (.float t) = .error "TypeError") ∧ ob_check_mask_pattern .other = .error "TypeError" ∧
+    (∀ b, ob_check_mask_pattern (.bool b) = .ok ()) := by
+  first | exact QR.SourceTieD2.checkMaskPattern_nonint_src | (apply QR.SourceTieD2.checkMaskPattern_nonint_src <;> assumption)
+
+/-- the getters of `border` and `mask_pattern` return the stored attribute -/
+theorem C18_source_getters_src {F : Type} (fac : Option F) (s : QRState) :
+    ob_get_border (toOb fac s) = (s.border : Int) ∧ ob_get_mask_pattern (toOb fac s) = optVal (s.mask.map Int.ofNat) := by
+  first | exact QR.SourceTieD2.getters_src | (apply QR.SourceTieD2.getters_src <;> assumption)
+
+/-- `self.version = value`: `None` is stored as it is; otherwise `int(value)`, `util.check_version`, store -/
+theorem C18_source_setVersion_src {F : Type} (fac : Option F) (g : Global) (s : QRState) (x : Option Int) :
+    Agrees fac g s (ob_set_version checkVersionOb (toOb fac s) (optVal x)) (step (g, s) (.setVersion x)) := by
+  first | exact QR.SourceTieD2.setVersion_src | (apply QR.SourceTieD2.setVersion_src <;> assumption)
+
+/-- `self.border = value`: `_check_border(value)`, then `int(value)` is stored -/
+theorem C18_source_setBorder_src {F : Type} (fac : Option F) (g : Global) (s : QRState) (x : Int) :
+    Agrees fac g s (ob_set_border (toOb fac s) (.int x)) (step (g, s) (.setBorder x)) := by
+  first | exact QR.SourceTieD2.setBorder_src | (apply QR.SourceTieD2.setBorder_src <;> assumption)
+
+/-- `self.mask_pattern = pattern`: `_check_mask_pattern(pattern)`, then the argument itself is stored -/
+theorem C18_source_setMask_src {F : Type} (fac : Option F) (g : Global) (s : QRState) (x : Option Int) :
+    Agrees fac g s (ob_set_mask_pattern (toOb fac s) (optVal x)) (step (g, s) (.setMask x)) := by
+  first | exact QR.SourceTieD2.setMask_src | (apply QR.SourceTieD2.setMask_src <;> assumption)
+
+/-- a bool passes the mask setter and is stored AS A BOOL (`qr.mask_pattern = True` leaves `_mask_pattern is True`); the
+    Model's setter takes integers only -/
+theorem C18_source_setMask_bool_src {D C F : Type} (o : ob_QR D C F) (b : Bool) :
+    ob_set_mask_pattern o (.bool b) = .ok { o with _mask_pattern := .bool b } := by
+  first | exact QR.SourceTieD2.setMask_bool_src | (apply QR.SourceTieD2.setMask_bool_src <;> assumption)
+
+/-- **`QRCode.__init__`** on integer (or `None`) arguments = the Model's `construct`: the same checks in the same order
+    (`_check_box_size`, `_check_border`, the `version` setter, `int(error_correction)`, `int(box_size)`, the `border`
+    setter on `int(border)`, the `mask_pattern` setter, the factory assertion, `clear()`), the same exception class, the
+    same resulting attributes - whatever the attributes were before (`self0`).  `fac` is the `image_factory` argument
+    (absent from the Model); it must be `None` or a subclass of `BaseImage`. -/
+theorem C18_source_construct_src {F : Type} (issub : F → Bool) (fac : Option F) (hf : ∀ f, fac = some f → issub f = true)
+    (self0 : ob_QR Seg (List Nat) F) (version : Option Int) (level : Nat) (box border : Int) (mask : Option Int) :
+    ob_init checkVersionOb issub self0 (optVal version) (.int level) (.int box) (.int border) fac (optVal mask) =
+      liftR ((construct version level box border mask).map (toOb fac)) := by
+  first | exact QR.SourceTieD2.construct_src | (apply QR.SourceTieD2.construct_src <;> assumption)
+
+/-- texts recorded by the translator for `QRCode.make_image` (imports, raise message) and the field order of `ActiveWithNeighbors` -/
+theorem C18_source_make_image_literals_src :
+    ob_make_image_pure_import = "from qrcode.image.pure import PyPNGImage" ∧
+    ob_make_image_import = "from qrcode.image.pil import Image, PilImage" ∧
+    ob_make_image_raise0 =
+      "ValueError('Error correction level must be ERROR_CORRECT_H if an embedded image is provided')" ∧
+    ob_awn_fields = ["NW", "N", "NE", "W", "me", "E", "SW", "S", "SE"] ∧ ob_awn_bool_field = "me" := by
+  first | exact QR.SourceTieD2.make_image_literals_src | (apply QR.SourceTieD2.make_image_literals_src <;> assumption)
+
+/-- the factory selection, the call of the class and the draw loops, on any object -/
+theorem C18_source_make_image_rest_src {D C F K W : Type} (issub : F → Bool) (Image : Bool) (PilImage PyPNGImage : F)
+    (nd nc np : F → Bool) (w : W) (o : ob_QR D C F) (arg : Option F) (kwargs : List (String × K))
+    (hf : ∀ f, arg = some f → issub f = true) :
+    ob_make_image_rest issub Image PilImage PyPNGImage nd nc np w o arg kwargs =
+      (let im : ob_Call F K :=
+         { cls := chosenFactory Image PilImage PyPNGImage o.image_factory arg,
+           pos := [o._border, (o.modules_count : Int), o.box_size], kw := [("qrcode_modules", o.modules)], star := kwargs }
+       ((w, o), .ok (im, ob_make_image_draw nd nc np o im))) := by
+  first | exact QR.SourceTieD2.make_image_rest_src | (apply QR.SourceTieD2.make_image_rest_src <;> assumption)
+
+/-- an `image_factory` argument that is not a subclass of `BaseImage` fails the assertion - after the box-size check and
+    the implicit compile (the Model has no factory argument) -/
+theorem C18_source_make_image_rest_bad_factory_src {D C F K W : Type} (issub : F → Bool) (Image : Bool) (PilImage PyPNGImage : F)
+    (nd nc np : F → Bool) (w : W) (o : ob_QR D C F) (f : F) (kwargs : List (String × K)) (hf : issub f = false) :
+    ob_make_image_rest issub Image PilImage PyPNGImage nd nc np w o (some f) kwargs = ((w, o), .error "AssertionError") := by
+  first | exact QR.SourceTieD2.make_image_rest_bad_factory_src | (apply QR.SourceTieD2.make_image_rest_bad_factory_src <;> assumption)
+
+/-- **`make_image`** = the Model's `step .makeImage`: the box-size check on the CURRENT `box_size` attribute first, then the
+    implicit compile when `data_cache is None`; the same exception class and state in the error cases; otherwise the image
+    class receives exactly `(border, modules_count, box_size, qrcode_modules=modules, **kwargs)` of the state after the
+    compile - the fields of the Model's `.image` output, in this order.
+    Hypotheses: no embedded image in `kwargs` unless the level is H (the Model has no `kwargs`; see
+    `make_image_embedded_src`), and the `image_factory` argument, if given, is a subclass of `BaseImage`. -/
+theorem C18_source_makeImage_src {F K : Type} (issub : F → Bool) (truthy : K → Bool) (Image : Bool) (PilImage PyPNGImage : F)
+    (nd nc np : F → Bool) (fac : Option F) (g : Global) (s : QRState) (arg : Option F) (kwargs : List (String × K))
+    (hk : (ob_py_truthy_opt truthy (ob_py_kwargs_get kwargs "embeded_image_path") ||
+            ob_py_truthy_opt truthy (ob_py_kwargs_get kwargs "embeded_image")) = false ∨ s.level = 2)
+    (hf : ∀ f, arg = some f → issub f = true) :
+    ob_make_image issub truthy Image PilImage PyPNGImage nd nc np (makeOb fac) g (toOb fac s) arg kwargs =
+      match step (g, s) .makeImage with
+      | (st', .err e) => ((st'.1, toOb fac st'.2), .error e.name)
+      | (st', .image b n bs m) =>
+        (let im : ob_Call F K :=
+           { cls := chosenFactory Image PilImage PyPNGImage fac arg, pos := [(b : Int), (n : Int), bs],
+             kw := [("qrcode_modules", m)], star := kwargs }
+         ((st'.1, toOb fac st'.2), .ok (im, ob_make_image_draw nd nc np (toOb fac st'.2) im)))
+      | (st', _) => ((st'.1, toOb fac st'.2), .error "unreachable") := by
+  first | exact QR.SourceTieD2.makeImage_src | (apply QR.SourceTieD2.makeImage_src <;> assumption)
+
+/-- the test the Model does not have: an embedded image (`embeded_image_path` or `embeded_image` truthy in `kwargs`) with a
+    level other than `ERROR_CORRECT_H` (= 2, read from `constants.py`) is a ValueError BEFORE anything else happens -/
+theorem C18_source_make_image_embedded_src {D C F K W : Type} (issub : F → Bool) (truthy : K → Bool) (Image : Bool)
+    (PilImage PyPNGImage : F) (nd nc np : F → Bool) (mk : W × ob_QR D C F → (W × ob_QR D C F) × Except String Unit)
+    (w : W) (o : ob_QR D C F) (arg : Option F) (kwargs : List (String × K))
+    (hk : (ob_py_truthy_opt truthy (kwargs.lookup "embeded_image_path") ||
+            ob_py_truthy_opt truthy (kwargs.lookup "embeded_image")) = true) (hl : o.error_correction ≠ 2) :
+    ob_make_image issub truthy Image PilImage PyPNGImage nd nc np mk w o arg kwargs = ((w, o), .error "ValueError") := by
+  first | exact QR.SourceTieD2.make_image_embedded_src | (apply QR.SourceTieD2.make_image_embedded_src <;> assumption)
+
+/-- **the draw loop of `make_image`** for an image class that needs `drawrect` calls without context: the calls on the
+    image are exactly `drawrect(r, c)` for the dark cells of the matrix in row-major order, followed by `process()` iff the
+    class needs processing -/
+theorem C18_source_make_image_draw_src {D C F K : Type} (nd nc np : F → Bool) (o : ob_QR D C F) (im : ob_Call F K)
+    (hd : nd im.cls = true) (hc : nc im.cls = false) :
+    ob_make_image_draw nd nc np o im =
+      (darkCells o.modules o.modules_count).map
+        (fun (p : Nat × Nat) => ({ method := "drawrect", args := [(p.1 : Int), (p.2 : Int)], kw := [] } : ob_Ev)) ++
+      (if np im.cls then [({ method := "process", args := [], kw := [] } : ob_Ev)] else []) := by
+  first | exact QR.SourceTieD2.make_image_draw_src | (apply QR.SourceTieD2.make_image_draw_src <;> assumption)
+
+/-- with `needs_context` every cell gets a `drawrect_context(r, c, qr=self)`, dark or not -/
+theorem C18_source_make_image_draw_context_src {D C F K : Type} (nd nc np : F → Bool) (o : ob_QR D C F) (im : ob_Call F K)
+    (hd : nd im.cls = true) (hc : nc im.cls = true) :
+    ob_make_image_draw nd nc np o im =
+      (allCells o.modules_count).map
+        (fun (p : Nat × Nat) => ({ method := "drawrect_context", args := [(p.1 : Int), (p.2 : Int)], kw := [("qr", "self")] } : ob_Ev)) ++
+      (if np im.cls then [({ method := "process", args := [], kw := [] } : ob_Ev)] else []) := by
+  first | exact QR.SourceTieD2.make_image_draw_context_src | (apply QR.SourceTieD2.make_image_draw_context_src <;> assumption)
+
+/-- a class that does not need `drawrect` gets no draw call at all -/
+theorem C18_source_make_image_draw_none_src {D C F K : Type} (nd nc np : F → Bool) (o : ob_QR D C F) (im : ob_Call F K)
+    (hd : nd im.cls = false) :
+    ob_make_image_draw nd nc np o im =
+      (if np im.cls then [({ method := "process", args := [], kw := [] } : ob_Ev)] else []) := by
+  first | exact QR.SourceTieD2.make_image_draw_none_src | (apply QR.SourceTieD2.make_image_draw_none_src <;> assumption)
+
+/-- `is_constrained(row, col)` is the bounds test against the matrix -/
+theorem C18_source_is_constrained_src {D C F : Type} (o : ob_QR D C F) (row col : Int) :
+    ob_is_constrained o row col =
+      decide (0 ≤ row ∧ row < o.modules.length ∧ 0 ≤ col ∧ col < (o.modules.getD row.toNat []).length) := by
+  first | exact QR.SourceTieD2.is_constrained_src | (apply QR.SourceTieD2.is_constrained_src <;> assumption)
+
+/-- the expression `active_with_neighbors` appends: `is_constrained(r, c) and bool(modules[r][c])` -/
+theorem C18_source_awn_cell_src {D C F : Type} (o : ob_QR D C F) (r c : Int) (ctx : List Bool) :
+    ob_awn_cell o r c ctx = ctx ++ [cellAt o.modules r c] := by
+  first | exact QR.SourceTieD2.awn_cell_src | (apply QR.SourceTieD2.awn_cell_src <;> assumption)
+
+/-- **`active_with_neighbors(row, col)`**: the nine values passed to `ActiveWithNeighbors(*context)` are the modules of the
+    3x3 neighbourhood in the order NW, N, NE, W, me, E, SW, S, SE (`ob_awn_fields`, see `make_image_literals_src`), with
+    everything outside the matrix `False` -/
+theorem C18_source_awn_src {D C F : Type} (o : ob_QR D C F) (row col : Int) :
+    ob_awn o row col =
+      [cellAt o.modules (row - 1) (col - 1), cellAt o.modules (row - 1) col, cellAt o.modules (row - 1) (col + 1),
+       cellAt o.modules row (col - 1), cellAt o.modules row col, cellAt o.modules row (col + 1),
+       cellAt o.modules (row + 1) (col - 1), cellAt o.modules (row + 1) col, cellAt o.modules (row + 1) (col + 1)] := by
+  first | exact QR.SourceTieD2.awn_src | (apply QR.SourceTieD2.awn_src <;> assumption)
+
+end SourceTieD2
 
 /-- the Python functions this property's model mirrors have, in /repo's current working tree, exactly the normalised
     ASTs the model was written and validated against (fingerprints regenerated by T1 on every run) -/
